@@ -1,6 +1,7 @@
 """C19 — An engine reported ready can be processed (DESIGN.md section 8, C19)."""
 from __future__ import annotations
 
+import copy
 import glob
 import itertools
 import json
@@ -22,6 +23,10 @@ RULE = ("engines with 2 inputs, 1-2 outputs (integral or weighted defuzzifier, w
         "output is enumerated exhaustively, two blocks / two outputs sampled; finite input rows.  Rule texts handed to Rule.parse / "
         "Rule.create / `rule.text =` in varied white-space layouts (tabs, runs of blanks, line breaks before / after a "
         "connective, margins, trailing comment): enumerated styles x missing-operator subsets, and random layouts.  "
+        "Histories on ONE engine (drawn last): is_ready + process, an in-place edit (rule text re-written through rule.text / "
+        "parse with or without reload, operator set / removed, defuzzifier swapped between integral / weighted / none, aggregation, "
+        "rules loaded late / unloaded / restart(), enabled flags, rules added / removed), is_ready + process again: every single "
+        "edit x missing-operator subsets enumerated, random histories of 1-4 edits; every moment against the model and the oracle.  "
         "non-trivial: the model reports "
         "at least one readiness error or a processing error; distinct = distinct abstract configuration")
 ASSUMPTIONS = ["operators are detected in the text by the substring tests of the code (' and ', ' or '); antecedent texts ASSIGNED "
@@ -277,10 +282,9 @@ def as_written(case, cfg):
     return [cfg[0], cfg[1], blocks]
 
 
-def oracle(case):
-    """the property on the implementation: soundness and completeness, judged from the live objects"""
-    e, ready, errs, raised = observe(case)
-    cfg = as_written(case, abstract(e))
+def judge(cfg, ready, errs, raised):
+    """the property at one moment of an engine's life: soundness and completeness, judged from the live objects (`cfg` is the
+    abstract configuration of that moment, with the connectives of rule texts as written)"""
     has_act = all(b[4] for b in cfg[2])
     if ready != (not errs):
         return False, f"is_ready returned {ready} with errors {errs}"
@@ -305,12 +309,271 @@ def oracle(case):
     return True, "ok"
 
 
+def oracle(case):
+    """the property on the implementation: soundness and completeness, judged from the live objects"""
+    if case.get("history") is not None:
+        return oracle_history(case)
+    e, ready, errs, raised = observe(case)
+    return judge(as_written(case, abstract(e)), ready, errs, raised)
+
+
+# ------------------------------------------------------------------------------------------ histories on one engine
+# The property speaks about the engine at the moment the readiness check is asked: "IF the readiness check reports an engine
+# ready ... THEN processing it completes", whatever was done to that engine before - built complete or edited into its
+# present state, checked for the first time or checked before.  A history is: is_ready() + process(), an in-place edit of a
+# component the readiness depends on, is_ready() + process() again, ... on ONE engine object (the same Engine, RuleBlock,
+# Rule and OutputVariable objects throughout).  Every answer is judged on the configuration of its own moment.
+
+RETEXT = ["plain", "and", "or", "andor", "orand", "two", "other"]          # templates without an antecedent override
+EDIT_OPS = ["retext", "operator", "defuzzifier", "aggregation", "load", "unload", "restart", "enable", "add-rule", "remove-rule"]
+
+
+def connectives(text):
+    toks = text.split("#")[0].split()
+    toks = toks[1:toks.index("then")] if "then" in toks else toks[1:]
+    return {t for t in toks if t in ("and", "or")}
+
+
+def apply_edit(e, case, ed, written):
+    """one in-place edit of the live engine (indices are taken modulo the present sizes; an edit without a target is a no-op);
+    `written` (per block, per rule: connectives of the rule text as written, or None) follows the rule texts"""
+    names = [o["name"] for o in case["outputs"]] or ["o1"]
+    op = ed["op"]
+    blocks, outs = e.rule_blocks, e.output_variables
+
+    def rule_text(tpl_ref):
+        text = template_text(tpl_ref, names)
+        return lay_out(text, tpl_ref["layout"]) if tpl_ref.get("layout") else text
+
+    if op in ("retext", "load", "unload", "add-rule", "remove-rule", "operator") and not blocks:
+        return
+    if op in ("defuzzifier", "aggregation") and not outs:
+        return
+    if op == "retext":
+        # the SAME Rule object gets another text (`rule.text = ...` or `rule.parse(...)`) and is - or is not - loaded again
+        bi = ed["block"] % len(blocks)
+        if not blocks[bi].rules:
+            return
+        ri = ed["rule"] % len(blocks[bi].rules)
+        rule, text = blocks[bi].rules[ri], rule_text(ed)
+        if ed.get("via") == "parse":
+            rule.parse(text)
+        else:
+            rule.text = text
+        written[bi][ri] = connectives(text)
+        if ed.get("reload", True):
+            try:
+                rule.load(e)
+            except Exception:  # noqa: BLE001  (no such output variable: the rule stays as the failed load left it)
+                pass
+    elif op == "operator":
+        b = blocks[ed["block"] % len(blocks)]
+        which = ed["which"]
+        new = None
+        if ed["on"]:
+            new = {"conjunction": fl.Minimum, "disjunction": fl.Maximum, "implication": fl.Minimum, "activation": fl.General}[which]()
+        setattr(b, which, new)
+    elif op == "defuzzifier":
+        kind = ed["kind"]
+        outs[ed["output"] % len(outs)].defuzzifier = (getattr(fl, kind)(20) if kind in INTEGRAL else getattr(fl, kind)() if kind else None)
+    elif op == "aggregation":
+        outs[ed["output"] % len(outs)].aggregation = fl.Maximum() if ed["on"] else None
+    elif op in ("load", "unload"):
+        b = blocks[ed["block"] % len(blocks)]
+        rules = b.rules if ed.get("rule") is None else ([b.rules[ed["rule"] % len(b.rules)]] if b.rules else [])
+        for rule in rules:
+            if op == "unload":
+                rule.unload()
+            else:
+                try:
+                    rule.load(e)
+                except Exception:  # noqa: BLE001
+                    pass
+    elif op == "restart":
+        # Engine.restart() reloads the rules of every rule block (the documented way to load rules created with load=False)
+        try:
+            e.restart()
+        except Exception:  # noqa: BLE001  (a rule that cannot be loaded: the others are loaded)
+            pass
+    elif op == "enable":
+        what = ed["what"]
+        if what == "rule":
+            if blocks and blocks[ed["block"] % len(blocks)].rules:
+                b = blocks[ed["block"] % len(blocks)]
+                b.rules[ed["rule"] % len(b.rules)].enabled = ed["on"]
+        else:
+            comps = {"output": outs, "input": e.input_variables, "block": blocks}[what]
+            if comps:
+                comps[ed["index"] % len(comps)].enabled = ed["on"]
+    elif op == "add-rule":
+        bi = ed["block"] % len(blocks)
+        rule = fl.Rule()
+        text = rule_text(ed)
+        rule.parse(text)
+        if ed.get("reload", True):
+            try:
+                rule.load(e)
+            except Exception:  # noqa: BLE001
+                pass
+        blocks[bi].rules.append(rule)
+        written[bi].append(connectives(text))
+    elif op == "remove-rule":
+        bi = ed["block"] % len(blocks)
+        if blocks[bi].rules:
+            ri = ed["rule"] % len(blocks[bi].rules)
+            blocks[bi].rules.pop(ri)
+            written[bi].pop(ri)
+
+
+def observe_history(case):
+    """-> (engine, [(moment, edit or None, abstract configuration, configuration as written, ready, errors, raised)]): moment 0
+    is the engine as built, moment k the same engine after the k-th edit; at every moment is_ready(errors) is asked and the
+    engine is processed with the finite input values of the case"""
+    e = build(case)
+    written = [list(rs) for rs in written_ops(case)]
+    steps = []
+    with np.errstate(all="ignore"):
+        for k, ed in enumerate([None] + list(case["history"])):
+            if ed is not None:
+                apply_edit(e, case, ed, written)
+            errors = []
+            ready = bool(e.is_ready(errors))
+            for v, x in zip(e.input_variables, case["values"]):
+                v.value = x
+            raised = None
+            try:
+                e.process()
+            except Exception as ex:  # noqa: BLE001
+                kind = next((kd for pat, kd in PROC_KINDS if pat in str(ex)), "other")
+                raised = [type(ex).__name__, kind, str(ex)[:120]]
+            cfg = abstract(e)
+            blocks = []
+            for b, wb in zip(cfg[2], written):
+                rules = [r if w is None else r[:2] + [int("and" in w), int("or" in w)] + r[4:] for r, w in zip(b[5], wb)]
+                blocks.append(b[:5] + [rules])
+            steps.append((k, ed, cfg, [cfg[0], cfg[1], blocks], ready, parse_errors(e, errors), raised))
+    return e, steps
+
+
+def oracle_history(case):
+    _, steps = observe_history(case)
+    for k, ed, _cfg, cfg_w, ready, errs, raised in steps:
+        ok, detail = judge(cfg_w, ready, errs, raised)
+        if not ok:
+            when = "on the engine as built" if k == 0 else f"asked again on the same engine after edit {k} ({json.dumps(ed)})"
+            return False, f"{when}: {detail}"
+    return True, "ok"
+
+
+def base_case(kind, conj, disj, impl, rules, aggregation=True, activation="General"):
+    return {"inputs": 2,
+            "outputs": [{"name": "o1", "defuzzifier": kind, "aggregation": aggregation,
+                         "shape": "const" if kind in WEIGHTED else "tri"}],
+            "blocks": [{"name": "rb", "conjunction": bool(conj), "disjunction": bool(disj), "implication": bool(impl),
+                        "activation": activation, "rules": rules}],
+            "values": [0.25, 0.625]}
+
+
+def single_edits(b):
+    """every kind of in-place edit the readiness of a 1 block x 1 output engine depends on, as one-step histories"""
+    for t in ("plain", "and", "or", "andor"):
+        for via, reload in (("text", True), ("parse", True), ("text", False)):
+            yield {"op": "retext", "block": 0, "rule": 0, "template": t, "via": via, "reload": reload}
+    for which in ("conjunction", "disjunction", "implication", "activation"):
+        yield {"op": "operator", "block": 0, "which": which, "on": not b[which]}
+    for kind in ("Centroid", "LargestOfMaximum", "WeightedAverage", "WeightedSum", None):
+        yield {"op": "defuzzifier", "output": 0, "kind": kind}
+    for on in (True, False):
+        yield {"op": "aggregation", "output": 0, "on": on}
+    yield {"op": "unload", "block": 0, "rule": None}
+    yield {"op": "load", "block": 0, "rule": None}
+    yield {"op": "restart"}
+    for what in ("output", "block", "input"):
+        yield {"op": "enable", "what": what, "index": 0, "on": False}
+    yield {"op": "enable", "what": "rule", "block": 0, "rule": 0, "on": False}
+    for t in ("and", "or"):
+        yield {"op": "add-rule", "block": 0, "template": t, "reload": True}
+    yield {"op": "remove-rule", "block": 0, "rule": 0}
+
+
+def history_cases():
+    """one block x one output, asked twice: every subset of {conjunction, disjunction, implication} removed x rules that do or
+    do not use a connective, loaded at construction or left unloaded (load=False) x integral / weighted defuzzifier x every
+    single in-place edit; the second answer must hold for the edited engine exactly as the first held for the built one"""
+    for kind in ("Centroid", "WeightedAverage"):
+        for conj, disj, impl in itertools.product([1, 0], repeat=3):
+            for rs, loaded in ((["plain"], True), (["and"], True), (["or"], True), (["plain", "or"], False)):
+                rules = mk_rules(rs)
+                if not loaded:
+                    for r in rules:
+                        r["loaded"] = False
+                base = base_case(kind, conj, disj, impl, rules)
+                for ed in single_edits(base["blocks"][0]):
+                    if ed["op"] == "defuzzifier" and ed["kind"] == kind:
+                        continue
+                    yield dict(copy.deepcopy(base), history=[ed])
+
+
+def random_edit(rng):
+    op = rng.choice(EDIT_OPS + ["retext", "operator", "defuzzifier"])
+    ed = {"op": op}
+    if op in ("retext", "add-rule"):
+        ed.update(block=rng.randrange(2), template=rng.choice(RETEXT), reload=rng.random() < 0.8)
+        if op == "retext":
+            ed.update(rule=rng.randrange(3), via=rng.choice(["text", "parse"]))
+        if rng.random() < 0.3:
+            text = TEMPLATES[ed["template"]][0]
+            ed["layout"] = (styled_layout(text, rng.choice(STYLES)) if rng.random() < 0.5
+                            else {"seps": [rng.choice(SEPS) for _ in range(len(text.split()) - 1)]})
+    elif op == "operator":
+        ed.update(block=rng.randrange(2), which=rng.choice(["conjunction", "disjunction", "implication", "activation"]),
+                  on=rng.random() < 0.5)
+    elif op == "defuzzifier":
+        ed.update(output=rng.randrange(2), kind=rng.choice(INTEGRAL + WEIGHTED + [None]))
+    elif op == "aggregation":
+        ed.update(output=rng.randrange(2), on=rng.random() < 0.5)
+    elif op in ("load", "unload"):
+        ed.update(block=rng.randrange(2), rule=rng.choice([None, 0, 1]))
+    elif op == "enable":
+        what = rng.choice(["output", "block", "input", "rule"])
+        ed.update(what=what, on=rng.random() < 0.5)
+        if what == "rule":
+            ed.update(block=rng.randrange(2), rule=rng.randrange(3))
+        else:
+            ed["index"] = rng.randrange(2)
+    elif op == "remove-rule":
+        ed.update(block=rng.randrange(2), rule=rng.randrange(3))
+    return ed
+
+
+def random_history_case(rng):
+    """a random engine (as `random_case`: any subset of components missing, rules loaded or not) and 1-4 random edits"""
+    case = random_case(rng, rng.random() < 0.8)
+    case["history"] = [random_edit(rng) for _ in range(rng.choice([1, 1, 2, 2, 3, 4]))]
+    return case
+
+
+def shrink_history(case):
+    """a failing history with as few edits as possible (edits are dropped while the oracle keeps failing)"""
+    cur = case
+    i = 0
+    while i < len(cur["history"]) and len(cur["history"]) > 1:
+        cand = dict(cur, history=cur["history"][:i] + cur["history"][i + 1:])
+        if not oracle(cand)[0]:
+            cur = cand
+        else:
+            i += 1
+    return cur
+
+
 def key(case):
     sig = []
     for b in case["blocks"]:
         ops = "".join(k[0] for k in ("conjunction", "disjunction", "implication") if not b[k]) or "-"
         lay = "layout" if any(r.get("layout") for r in b["rules"]) else ""
         sig.append(f"missing[{ops}]rules[{','.join(sorted({r['template'] for r in b['rules']}))}]{lay}")
+    if case.get("history") is not None:
+        sig.append("history[" + ",".join(ed["op"] for ed in case["history"]) + "]")
     return ";".join(sig)
 
 
@@ -512,8 +775,65 @@ def correspond(ctx):
                          "violation": True, "detail": detail, "what": detail})
         if len(mism) > 40:
             break
-    # violations first, simplest (fewest rules) first
-    mism.sort(key=lambda m: (not m.get("violation"), sum(len(b["rules"]) for b in m["case"]["blocks"]), len(m["case"]["blocks"])))
+    mism += correspond_histories(ctx)
+    # violations first, simplest (fewest rules, shortest history) first
+    mism.sort(key=lambda m: (not m.get("violation"), sum(len(b["rules"]) for b in m["case"]["blocks"]), len(m["case"]["blocks"]),
+                             len(m["case"].get("history") or [])))
+    return mism
+
+
+def correspond_histories(ctx):
+    """histories on one engine (drawn after every other stream): at every moment the model's error list / first processing
+    error for the configuration of that moment against is_ready / process of the edited engine, and the property oracle"""
+    st = ctx.stats
+    mism = []
+    cases = [(c, "history-single-edit") for c in history_cases()]
+    cases += [(random_history_case(ctx.rng), "history-random") for _ in range(ctx.scale(400, 15000))]
+    obs, lines = [], []
+    for case, kind in cases:
+        _, steps = observe_history(case)
+        obs.append((case, kind, steps))
+        lines += [model_line(step[2]) for step in steps]
+    outs = iter(ctx.driver.eval(lines))
+    for case, kind, steps in obs:
+        st.count(kind)
+        general = all(b["activation"] in (None, "General") for b in case["blocks"])   # an edit only ever sets General
+        bad = viol = None
+        for k, ed, cfg, cfg_w, ready, errs, raised in steps:
+            o = next(outs)
+            p = C.parse_sx(o)
+            st.validated += 1
+            if bad or viol:
+                continue
+            if not isinstance(p, list) or len(p) != 3:
+                bad = "driver rejected the configuration"
+                continue
+            m_errs = sorted(flat(x) for x in p[0])
+            m_proc = None if p[2] == "none" else p[2][0]
+            st.case(json.dumps([cfg, k > 0]), bool(m_errs) or m_proc is not None,
+                    sample={"config": cfg, "after_edit": ed, "impl": {"ready": ready, "errors": errs, "raised": raised and raised[:2]},
+                            "model": {"errors": m_errs, "process": m_proc}} if kind == "history-random" and k else None)
+            if sorted(errs) != m_errs or ready != (not m_errs):
+                bad = f"moment {k}: is_ready: implementation {ready} {sorted(errs)}, model {m_errs}"
+            elif general:
+                if (raised is None) != (m_proc is None):
+                    bad = f"moment {k}: process(): implementation raised {raised}, model expects {m_proc}"
+                elif raised is not None:
+                    both = any(r[0] and r[4] and r[5] and not b[1] and not b[2] for b in cfg[2] for r in b[5])
+                    if raised[0] != "ValueError" or (raised[1] != m_proc and not (both and {raised[1], m_proc} <= {"conjunction", "disjunction"})):
+                        bad = f"moment {k}: process(): implementation raised {raised}, model expects ValueError/{m_proc}"
+            ok, detail = judge(cfg_w, ready, errs, raised)
+            st.count("oracle")
+            if not ok:
+                viol = detail
+        if viol:
+            small = shrink_history(case)
+            detail = oracle(small)[1]
+            mism.append({"case": small, "violation": True, "detail": detail, "what": detail})
+        elif bad:
+            mism.append({"case": case, "what": bad})
+        if len(mism) > 40:
+            break
     return mism
 
 
@@ -532,4 +852,9 @@ def search(ctx):
         ok, d = oracle(case)
         if not ok:
             return [(case, d)]
+    for case in itertools.chain(history_cases(), (random_history_case(ctx.rng) for _ in range(3000))):
+        ok, d = oracle(case)
+        if not ok:
+            case = shrink_history(case)
+            return [(case, oracle(case)[1])]
     return []
